@@ -45,8 +45,8 @@ CHECKS = {
                 text="A history with pickle round-trip / reclaim_node_data inserted is run next to a twin without it under the same symbolic parameters; every later observable must coincide. The solver supplies the network and parameter coverage (compared values are class-constant)."),
     "C17": dict(engine="E-CAB", category="model_checking", design_ref="§6 C17", technique=T_CAB + " (relational; presentations interpreted over permuted/negated views of the same symbolic bits)",
                 text="Each class representative is re-written (CNF, nested ITE, aeon, sbml, renamed + re-ordered, variables negated) and the real code runs on every presentation, each interpreted over a view of the same symbolic truth table, so both runs are covered by the class; diagrams are compared after mapping spaces back, attractors through REACH. sanitize_network_names runs on solver-chosen symbolic name tuples with validity/identity-pattern generalisation."),
-    "C18": dict(engine="E-CAB", category="model_checking", design_ref="§6 C18", technique=T_CAB + " (product networks composed from component atoms; input-fixed views)",
-                text="(1) symbolic product networks A x B: the real code on the union and on each part; minimal trap spaces and attractors of the union are exactly the pairwise products (decided via composed REACH). (2) networks with source variables: for every valuation the diagram of the network with inputs replaced by constants (a view sharing the bits) is isomorphic to the part of the free-input diagram below that valuation's node, with the same attractors. (3) the third sentence of C18 (large published models vs. an independent symbolic computation) is not claimed."),
+    "C18": dict(engine="E-CAB", category="model_checking", design_ref="§6 C18", technique=T_CAB + " (product networks composed from component atoms; input-fixed views); per-model SMT validation (z3 over all states) of the reported trap spaces and fixed points on the published models",
+                text="(1) symbolic product networks A x B: the real code on the union and on each part; minimal trap spaces and attractors of the union are exactly the pairwise products (decided via composed REACH). (2) networks with source variables: for every valuation the diagram of the network with inputs replaced by constants (a view sharing the bits) is isomorphic to the part of the free-input diagram below that valuation's node, with the same attractors. (3) third sentence, the part a solver can decide: on every published model of the repository (5-321 variables) z3 decides over all states that each reported minimal trap space is closed, that the reported fixed-point attractors are fixed points and that NO other fixed point exists, and that seeds lie in their spaces, one per minimal trap space; the uniqueness of complex attractors inside a minimal trap space and the absence of motif-avoidant attractors on those large models are not claimed (no bounded encoding of reachability on 2^321 states)."),
     "C19": dict(engine="E-CAB", category="model_checking", design_ref="§6 C19", technique=T_CAB + "; cross-interpreter comparison per representative",
                 text="Every path-class representative is built twice in the harness process (with an unrelated diagram in between) and again in fresh interpreters with other PYTHONHASHSEEDs; ids, spaces, edges, motifs, depths, seeds and interventions must be identical. In-process equality is class-constant; the hash-seed dimension is sampled and stated as such."),
     "C20": dict(engine="E-CAB", category="model_checking", design_ref="§6 C20", technique=T_CAB,
